@@ -130,7 +130,9 @@ static void exec_line(char *line) {
   } else if (!strcmp(w[0], "db") && n == 2 && kv) {   // create/open database (a savepoint when new)
     IWDB db; iwrc rc = iwkv_db(kv, (uint32_t) atol(w[1]), 0, &db);
     printf("db %s", rcname(rc)); tail_status();
-  } else if ((!strcmp(w[0], "put") && n == 5) || (!strcmp(w[0], "del") && n == 3)) {
+  } else if ((!strcmp(w[0], "put") && (n == 5 || n == 6)) || (!strcmp(w[0], "del") && (n == 3 || n == 4))) {
+    // a trailing `s` = IWKV_SYNC: the call pokes the log's worker thread, which takes a savepoint on its own
+    iwkv_opflags fl = ((w[0][0] == 'p' && n == 6) || (w[0][0] == 'd' && n == 4)) ? IWKV_SYNC : 0;
     IWDB db = find_db((uint32_t) atol(w[1]));
     if (!db) { printf("%s nodb\n", w[0]); return; }
     size_t kl; uint8_t *k = hx_parse(w[2], &kl); IWKV_val key = { .data = k, .size = kl };
@@ -138,8 +140,8 @@ static void exec_line(char *line) {
     if (w[0][0] == 'p') {
       int vl = atoi(w[3]); uint8_t *vb = malloc(vl + 1); mkval(vb, vl, (unsigned) atol(w[4]));
       IWKV_val val = { .data = vb, .size = (size_t) vl };
-      rc = iwkv_put(db, &key, &val, 0); free(vb);
-    } else rc = iwkv_del(db, &key, 0);
+      rc = iwkv_put(db, &key, &val, fl); free(vb);
+    } else rc = iwkv_del(db, &key, fl);
     free(k);
     int rebased = 0;
     if (n_trunc != t0 && !in_backup) {   // file growth forced a checkpoint inside the operation: re-base on a clean checkpoint
